@@ -180,6 +180,15 @@ def act(b, given=None):
     raise SystemExit(3)
 
 
+class _CallableObject:
+    """a handler that is an instance with __call__ (no __name__/__code__)"""
+    def __init__(self, fun):
+        self.fun = fun
+
+    def __call__(self, *args, **kwargs):
+        return self.fun(*args, **kwargs)
+
+
 # ------------------------------------------------------------------ scenario
 class Scenario:
     """before/after: list of beh; shandlers: {(code, methodbit): beh};
@@ -204,7 +213,20 @@ class Scenario:
                               for k, v in self.shandlers.items()},
                 "ehandlers": self.ehandlers, "digest": self.digest,
                 "construct": self.construct, "method": self.method,
-                "leaf": self.leaf, "debug": self.debug}
+                "leaf": self.leaf, "debug": self.debug,
+                "callable_shape": getattr(self, "shape", None),
+                "host": getattr(self, "host", None)}
+
+    def merged_ehandlers(self):
+        """the exception table after all registrations: a class keeps the
+        position of its FIRST registration, later ones add method bits"""
+        order, table = [], {}
+        for cls, hd in self.ehandlers:
+            if cls not in table:
+                order.append(cls)
+                table[cls] = {}
+            table[cls].update(hd)
+        return [(cls, table[cls]) for cls in order]
 
     # ---- Coq side
     def app_term(self):
@@ -212,7 +234,7 @@ class Scenario:
                    for (c, m), b in self.shandlers.items())
         eh = clist("(%s,%s)" % (zlit(cls), clist(
             "(%s,%s)" % (zlit(m), beh_term(b)) for m, b in hd.items()))
-            for cls, hd in self.ehandlers)
+            for cls, hd in self.merged_ehandlers())
         return "(mkApp %s %s %s %s %s)" % (
             clist(beh_term(b) for b in self.before),
             clist(beh_term(b) for b in self.after), sh, eh,
@@ -247,9 +269,34 @@ class Scenario:
         return "run_cycle %s %s" % (self.app_term(), self.facts_term())
 
     # ---- implementation side
+    built = 0
+    SHAPES = ("function", "function", "partial", "object", "function")
+    HOSTS = (None, "example.org", "example.org:", "[::1", "h\xe9te:80",
+             "example.org:8080")
+
     def build(self):
         trace = []
         app = new_app(debug=self.debug)
+        if getattr(self, "shape", None) is None:
+            # a function of the scenario itself (replays reproduce it)
+            import zlib
+            key = zlib.crc32(repr((self.before, self.after, self.leaf,
+                                   self.method, self.construct,
+                                   sorted(self.shandlers.items()),
+                                   self.ehandlers)).encode())
+            self.shape = Scenario.SHAPES[key % 5]
+            self.host = Scenario.HOSTS[(key // 5) % 6]
+        shape = self.shape
+        endpoint_box = []
+
+        def wrap(fun):
+            """any callable is a handler"""
+            if shape == "partial":
+                import functools
+                return functools.partial(fun)
+            if shape == "object":
+                return _CallableObject(fun)
+            return fun
         if self.digest:
             app.secret_key = "k" * 16
             app.auth_type = "Digest"
@@ -259,8 +306,9 @@ class Scenario:
         def mk_before(i, b):
             def hook(req):
                 trace.append(["B", i])
-                seen.append((req.uri_rule, getattr(req.uri_handler,
-                                                   "__name__", None)))
+                seen.append((req.uri_rule, "endpoint" if endpoint_box and
+                             req.uri_handler is endpoint_box[0] else
+                             getattr(req.uri_handler, "__name__", None)))
                 return act(b)
             hook.__name__ = "before%d" % i
             return hook
@@ -272,20 +320,20 @@ class Scenario:
             hook.__name__ = "after%d" % i
             return hook
         for i, b in enumerate(self.before):
-            app.add_before_response(mk_before(i, b))
+            app.add_before_response(wrap(mk_before(i, b)))
         for i, b in enumerate(self.after):
-            app.add_after_response(mk_after(i, b))
+            app.add_after_response(wrap(mk_after(i, b)))
         for (code, mbit), b in self.shandlers.items():
             def sh(req, *args, _c=code, _b=b, **kw):
                 trace.append(["S", _c])
                 return act(_b)
-            app.set_http_state(code, sh, mbit)
+            app.set_http_state(code, wrap(sh), mbit)
         for cls, hd in self.ehandlers:
             for mbit, b in hd.items():
                 def eh(req, err, _c=cls, _b=b):
                     trace.append(["X", _c])
                     return act(_b)
-                app.set_error_handler(CLASSES[cls], eh, mbit)
+                app.set_error_handler(CLASSES[cls], wrap(eh), mbit)
         path = "/x"
         kind = self.leaf[0]
         allm = 511
@@ -296,6 +344,8 @@ class Scenario:
             def endpoint(req, *args, _b=self.leaf[1]):
                 trace.append(["E"])
                 return act(_b)
+            endpoint = wrap(endpoint)
+            endpoint_box.append(endpoint)
             if kind == "endpoint":
                 app.set_route("/x", endpoint, allm)
             elif kind == "pattern":
@@ -325,6 +375,8 @@ class Scenario:
             app.set_route("/c/<v:bad>", lambda req, v: "never", allm)
             path = "/c/1"
         env = environ(method=self.method, path=path)
+        if self.host is not None:
+            env["HTTP_HOST"] = self.host
         if self.construct == "badlen":
             env["CONTENT_LENGTH"] = "abc"
         elif self.construct == "nopath":
@@ -335,6 +387,8 @@ class Scenario:
                           content_type="application/json")
             env["REQUEST_METHOD"] = self.method if self.method in (
                 "POST", "PUT", "PATCH") else "POST"
+        if self.host is not None:
+            env["HTTP_HOST"] = self.host
         return app, env, trace
 
     def run(self):
